@@ -294,19 +294,28 @@ def replay_history(seed_hex, history, which, oracle):
     return (not bad), bad[:2]
 
 
+C14_ONLY_SEEDS = {"only_a_branch_body_is_unsorted"}
+
+
 def explore_seed(desc, proto, depth, which):
     """BFS over pass sequences from one seed. Returns (n_states, n_transitions, n_modifying, found)."""
+    c14_only = False
     try:
         onnx.checker.check_model(proto)
     except Exception:  # noqa: BLE001
-        return 0, 0, 0, {}, "invalid_seed"
+        # C05 quantifies over valid models; C14 (flag, identity, links, fixpoint) also over models the checker
+        # rejects only because a graph is not in topological order yet
+        if isinstance(desc[0], str) and desc[0] in C14_ONLY_SEEDS:
+            c14_only = True
+        else:
+            return 0, 0, 0, {}, "invalid_seed"
     try:
         onnx.checker.check_model(proto, full_check=True)
         full = True
     except Exception:  # noqa: BLE001
         full = False
     seed_outputs = outputs_on_feeds(proto)
-    if any(isinstance(o, tuple) for o in seed_outputs):
+    if any(isinstance(o, tuple) for o in seed_outputs) and not c14_only:
         return 0, 0, 0, {}, "seed_not_evaluable"
     seed_inputs = non_initializer_inputs(proto)
     seed_feeds = gg.feeds_for(proto)
@@ -325,11 +334,13 @@ def explore_seed(desc, proto, depth, which):
                 r = apply_pass(state, pname, seed_outputs, seed_inputs, full_check=full, seed_feeds=seed_feeds)
                 ntrans += 1
                 if r["crash"]:
+                    if c14_only:
+                        continue  # e.g. the checker pass rejecting the not yet sorted model
                     key = f"pass_crash|{pname}|{r['crash'].split(':')[0]}"
                     found.setdefault(("c05", key), {"seed": desc, "path": list(path) + [pname], "clause": "pass_raises_on_valid_model", "detail": r["crash"]})
                     continue
                 tag = f"|{desc[0]}" if isinstance(desc[0], str) else ""
-                for clause, detail in r["c05"]:
+                for clause, detail in ([] if c14_only else r["c05"]):
                     found.setdefault(("c05", f"{clause}|{pname}{tag}"), {"seed": desc, "path": list(path) + [pname], "clause": clause, "detail": detail})
                 for clause, detail in r["c14"]:
                     if clause.startswith("modified_false_but_model_changed") and isinstance(detail, list):
@@ -347,7 +358,7 @@ def explore_seed(desc, proto, depth, which):
                 if hh in seen:
                     continue
                 seen.add(hh)
-                if not r["c05"] and not r["c14"]:
+                if (c14_only or not r["c05"]) and not r["c14"]:
                     nxt.append((r["new"], path + (pname,)))
         frontier = nxt
         if not frontier:
